@@ -707,16 +707,25 @@ func ruleJSONNUMEXACT(c *Ctx, r *Report) {
 								if !ok {
 									continue
 								}
+								guarded := false
 								switch calleeFullName(pc) {
 								case "strconv.Atoi", "strconv.ParseInt":
+									errKey := c.key(pc, nil) + "#1"
+									for _, a := range c.domAtoms(st.Block()) {
+										if a.Kind == "nil" && a.Pos && a.Subj == errKey {
+											guarded = true
+										}
+									}
 								default:
-									continue
-								}
-								errKey := c.key(pc, nil) + "#1"
-								guarded := false
-								for _, a := range c.domAtoms(st.Block()) {
-									if a.Kind == "nil" && a.Pos && a.Subj == errKey {
-										guarded = true
+									// a helper `func(text) (int, bool)` that returns strconv's integer reading and whether it
+									// succeeded; the store must sit under its second result
+									if g := pc.Call.StaticCallee(); g != nil && inLib(g) && c.exactIntReader(g) {
+										okKey := c.key(pc, nil) + "#1"
+										for _, a := range c.domAtoms(st.Block()) {
+											if a.Kind == "bool" && a.Pos && a.Subj == okKey {
+												guarded = true
+											}
+										}
 									}
 								}
 								if guarded && (st.Block() == call.Block() || reachesBlock(st.Block(), call.Block())) {
@@ -780,4 +789,53 @@ func closureCallOf(call *ssa.Call, f *ssa.Function) bool {
 		return fn == f
 	}
 	return false
+}
+
+// exactIntReader: g returns (n, ok) where n is the #0 result of the single strconv.Atoi / ParseInt call in g on
+// every return, and ok is `err == nil` of that same call.
+func (c *Ctx) exactIntReader(g *ssa.Function) bool {
+	if g.Signature.Results().Len() != 2 || !isBool(g.Signature.Results().At(1).Type()) {
+		return false
+	}
+	var parse *ssa.Call
+	for _, b := range g.Blocks {
+		for _, in := range b.Instrs {
+			if call, ok := in.(*ssa.Call); ok {
+				switch calleeFullName(call) {
+				case "strconv.Atoi", "strconv.ParseInt":
+					if parse != nil {
+						return false
+					}
+					parse = call
+				}
+			}
+		}
+	}
+	if parse == nil {
+		return false
+	}
+	pk := c.key(parse, nil)
+	nRet := 0
+	for _, b := range g.Blocks {
+		ret, ok := b.Instrs[len(b.Instrs)-1].(*ssa.Return)
+		if !ok {
+			continue
+		}
+		nRet++
+		k0 := c.key(c.resolve(ret.Results[0], nil), nil)
+		if k0 != pk+"#0" && !strings.HasSuffix(k0, "("+pk+"#0)") {
+			return false
+		}
+		// the flag: err == nil
+		okAtom := false
+		for _, a := range c.atoms(ret.Results[1], true, nil) {
+			if a.Kind == "nil" && a.Pos && a.Subj == pk+"#1" {
+				okAtom = true
+			}
+		}
+		if !okAtom {
+			return false
+		}
+	}
+	return nRet > 0
 }
